@@ -655,7 +655,7 @@ class Interp:
                 parts.append(v.value)
             else:
                 parts.append(self.eval(v.value, env, mod))
-        return Sym("fstr", *[p if isinstance(p, str) else repr(p) for p in parts])
+        return Sym("fstr", *[_keep(p) for p in parts])
 
     def e_Starred(self, e, env, mod):
         raise AnalysisError("starred expression outside call/literal")
@@ -876,6 +876,14 @@ class _Box:
 
     def __hash__(self):
         return id(self.v)
+
+
+def _keep(p):
+    if isinstance(p, (str, Sym)) or _plain(p):
+        return p
+    if isinstance(p, (list, tuple)):
+        return tuple(_keep(x) for x in p)
+    return repr(p)
 
 
 def _plain(v):
